@@ -454,14 +454,21 @@ pub fn program_text(kind: &str, n: usize, consts: &[bool], typed: bool) -> Strin
         }
     }
     let args: Vec<String> = (0..n).map(|q| format!("x{q}: u8")).collect();
-    let op = if kind == "A" { " + " } else { " ^ " };
+    // "A": sum, "B": xor (different tokens).  "An" / "Ac": the same characters up to the position of ONE line break:
+    // in "An" a line comment ends before "+ x1 ...", in "Ac" it swallows the rest of the expression -- two different
+    // programs (x0 + x1 + ... vs. x0) that a comparison insensitive to line breaks cannot tell apart
+    let op = if kind == "B" { " ^ " } else { " + " };
     let mut terms: Vec<String> = (0..n).map(|q| format!("x{q}")).collect();
     for (q, has) in consts.iter().enumerate() {
         if *has {
             terms.push(format!("C{q}"));
         }
     }
-    s += &format!("pub fn main({}) -> u8 {{ {} }}\n", args.join(", "), terms.join(op));
+    match kind {
+        "An" => s += &format!("pub fn main({}) -> u8 {{ x0 //\n    + {}\n}}\n", args.join(", "), terms[1..].join(op)),
+        "Ac" => s += &format!("pub fn main({}) -> u8 {{ x0 //    + {}\n}}\n", args.join(", "), terms[1..].join(op)),
+        _ => s += &format!("pub fn main({}) -> u8 {{ {} }}\n", args.join(", "), terms.join(op)),
+    }
     s
 }
 
@@ -628,7 +635,7 @@ impl Driver {
                 tokio::spawn(async move {
                     let r: String = match stray.as_str() {
                         "Schedule" => res_str(&h.schedule(policy).await).into(),
-                        "Run" => res_str(&h.run(RunRequest { computation_id: cid }).await).into(),
+                        "Run" | "RunEarly" => res_str(&h.run(RunRequest { computation_id: cid }).await).into(),
                         "Consts" => res_str(
                             &h.consts(ConstsRequest {
                                 from: (p + 1) % n,
@@ -701,6 +708,20 @@ impl Driver {
             "Schedule" => scheduled,
             "MsgEarly" => !scheduled,
             "Run" | "Consts" => not_yet && quiet,
+            // a run request reaching the leader inside its schedule step (ServerCore.tla, StrayAllowed)
+            "RunEarly" => {
+                let leader = self.job.scen.pol[c - 1][p].leader == p;
+                let sched_called = self
+                    .hub
+                    .inner
+                    .lock()
+                    .expect("hub")
+                    .api
+                    .get(&(c, p, "schedule".to_string()))
+                    .and_then(|v| v.last().cloned())
+                    .is_some_and(|r| r == "called");
+                leader && not_yet && busy && sched_called
+            }
             "Validate" => (!not_yet || kind == "ValidateRequested") && kind != "Stopped" && quiet,
             _ => true,
         }
@@ -738,7 +759,7 @@ impl Driver {
         if self.budget.stray > 0 && rng.random_range(0..8) == 0 {
             let c = rng.random_range(1..=scen.pol.len());
             let p = rng.random_range(0..scen.n);
-            let kinds: Vec<&str> = ["MsgBad", "Schedule", "MsgEarly", "Run", "Consts", "Validate"]
+            let kinds: Vec<&str> = ["MsgBad", "Schedule", "MsgEarly", "Run", "Consts", "Validate", "RunEarly"]
                 .into_iter()
                 .filter(|k| self.stray_allowed(c, p, k))
                 .collect();
